@@ -1840,3 +1840,305 @@ Section ReadSpec.
       + intros [q [Hq Hn]]. exists q. split; [now apply Hinrev|assumption].
   Qed.
 End ReadSpec.
+
+(** * The whole run, stated over the declarations alone *)
+
+Lemma clos_rt_iff {A} (R R' : relation A) :
+  (forall a b, R a b <-> R' a b) ->
+  forall a b, clos_refl_trans A R a b <-> clos_refl_trans A R' a b.
+Proof.
+  intros H a b. split; induction 1;
+    try (apply rt_step; now apply H); try apply rt_refl; eapply rt_trans; eauto.
+Qed.
+
+Lemma clos_t_iff {A} (R R' : relation A) :
+  (forall a b, R a b <-> R' a b) ->
+  forall a b, clos_trans A R a b <-> clos_trans A R' a b.
+Proof.
+  intros H a b. split; induction 1;
+    try (apply t_step; now apply H); eapply t_trans; eauto.
+Qed.
+
+Section Final.
+  Variable fs : bfiles.
+  Variable roots : list name.
+  Variable kind : name -> skind.
+  Variable ts : list name.
+
+  (** A node some reached, error-free... build file declares. *)
+  Definition declared (n : node) : Prop :=
+    exists q, reached fs roots q /\ In n (fnodes fs q).
+
+  Definition dedge (a b : name) : Prop :=
+    exists n, declared n /\ nname n = a /\ In b (ndeps n).
+
+  Definition undeclared (a : name) : Prop := forall n, declared n -> nname n <> a.
+
+  (** A dependency cycle or a dangling dependency reachable from a target. *)
+  Definition graph_problem : Prop :=
+    exists t a, In t ts /\ clos_refl_trans name dedge t a /\
+      ((undeclared a /\ (kind a <> KFile \/ a = "")) \/ clos_trans name dedge a a).
+
+  Definition reachable_rule (r : name) : Prop :=
+    exists t n, In t ts /\ clos_refl_trans name dedge t r /\
+                declared n /\ nname n = r /\ ntype n = TRule.
+
+  Lemma find_declared st :
+    NoDup (map nname (r_nodes st)) ->
+    (forall n, In n (r_nodes st) <-> declared n) ->
+    forall a n, find_node a (r_nodes st) = Some n <-> declared n /\ nname n = a.
+  Proof.
+    intros Hnd Hin a n. split.
+    - intros H. apply find_node_Some in H. destruct H. split; [now apply Hin|assumption].
+    - intros [Hd <-]. apply find_node_NoDup; [assumption|now apply Hin].
+  Qed.
+
+  Theorem c11_correct :
+    match c11_run fs roots kind ts with
+    | CErr es => es <> [] /\ (read_problem fs roots \/ graph_problem)
+    | CExec ex =>
+        ~ read_problem fs roots /\ ~ graph_problem /\ NoDup ex /\
+        (forall r, In r ex <-> reachable_rule r) /\
+        (forall e1 a e2, ex = (e1 ++ a :: e2)%list ->
+           forall b n, clos_trans name dedge a b -> declared n -> nname n = b ->
+                       ntype n = TRule -> In b e1)
+    | _ => False
+    end.
+  Proof.
+    destruct (read_roots fs roots) as [st|] eqn:Hr;
+      [|exfalso; now apply (read_roots_terminates fs roots)].
+    destruct (read_roots_spec fs roots st Hr) as (Herr & Hok & _).
+    destruct (errs_nil_dec (r_errs st)) as [He|He].
+    - destruct (Hok He) as [Hnd Hin].
+      pose proof (find_declared st Hnd Hin) as Hfind.
+      assert (Hedge : forall a b, edge (r_nodes st) a b <-> dedge a b).
+      { intros a b. split.
+        - intros [n [Hn Hb]]. apply Hfind in Hn. destruct Hn. exists n. auto.
+        - intros [n (Hd & Hn & Hb)]. exists n. split; [now apply Hfind|assumption]. }
+      assert (Hnone : forall a, find_node a (r_nodes st) = None <-> undeclared a).
+      { intros a. split.
+        - intros Hf n Hd Hn. assert (find_node a (r_nodes st) = Some n) by now apply Hfind.
+          congruence.
+        - intros Hu. destruct (find_node a (r_nodes st)) as [n|] eqn:Hf; [|reflexivity].
+          apply Hfind in Hf. destruct Hf as [Hd Hn]. exfalso. exact (Hu n Hd Hn). }
+      assert (Hbad : bad_reachable (r_nodes st) kind ts <-> graph_problem).
+      { unfold bad_reachable, graph_problem, dangling, on_cycle. split.
+        - intros (t & a & Ht & Hta & Ha). exists t, a. split; [assumption|].
+          split; [now apply (clos_rt_iff _ _ Hedge)|].
+          destruct Ha as [[Hf Hk]|Hc]; [left; split; [now apply Hnone|assumption]|right].
+          now apply (clos_t_iff _ _ Hedge).
+        - intros (t & a & Ht & Hta & Ha). exists t, a. split; [assumption|].
+          split; [now apply (clos_rt_iff _ _ Hedge)|].
+          destruct Ha as [[Hf Hk]|Hc]; [left; split; [now apply Hnone|assumption]|right].
+          now apply (clos_t_iff _ _ Hedge). }
+      assert (Hnp : ~ read_problem fs roots) by (intros Hp; apply Herr in Hp; contradiction).
+      pose proof (c11_after_read fs roots kind ts st Hr He) as H.
+      destruct (c11_run fs roots kind ts) as [|es| |ex]; try contradiction.
+      + destruct H as [H1 H2]. split; [assumption|]. right. now apply Hbad.
+      + destruct H as (H1 & H2 & H3 & H4). split; [assumption|].
+        split; [now rewrite <- Hbad|]. split; [assumption|]. split.
+        * intros r. rewrite H3. unfold reachable_rule. split.
+          -- intros (t & n & Ht & Htr & Hn & Hty). exists t, n. apply Hfind in Hn.
+             destruct Hn. repeat split; auto. now apply (clos_rt_iff _ _ Hedge).
+          -- intros (t & n & Ht & Htr & Hd & Hn & Hty). exists t, n.
+             repeat split; auto; [now apply (clos_rt_iff _ _ Hedge)|now apply Hfind].
+        * intros e1 a e2 E b n Hab Hd Hn Hty. apply (H4 e1 a e2 E b n); auto.
+          -- now apply (clos_t_iff _ _ Hedge).
+          -- now apply Hfind.
+    - unfold c11_run, load_nodes. rewrite Hr. destruct (r_errs st) as [|e es]; [congruence|].
+      split; [discriminate|]. left. apply Herr. discriminate.
+  Qed.
+End Final.
+
+(** * Declaration order does not matter *)
+
+Lemma perm_flat_map {A B} (g : A -> list B) l l' :
+  Permutation l l' -> Permutation (flat_map g l) (flat_map g l').
+Proof. intros H. now apply Permutation_flat_map. Qed.
+
+(** The same build files with the declarations of each file in any order. *)
+Definition same_decls (fs fs' : bfiles) : Prop :=
+  forall q, match lookup q fs, lookup q fs' with
+            | Some ds, Some ds' => Permutation ds ds'
+            | None, None => True
+            | _, _ => False
+            end.
+
+Lemma same_decls_sym fs fs' : same_decls fs fs' -> same_decls fs' fs.
+Proof.
+  intros H q. specialize (H q).
+  destruct (lookup q fs), (lookup q fs'); auto. now apply Permutation_sym.
+Qed.
+
+Section Order.
+  Variables fs fs' : bfiles.
+  Variables roots roots' : list name.
+  Hypothesis Hfs : same_decls fs fs'.
+  Hypothesis Hroots : forall r, In r roots <-> In r roots'.
+
+  Lemma perm_file_errs ds ds' : Permutation ds ds' -> (file_errs ds = [] <-> file_errs ds' = []).
+  Proof.
+    intros Hp. pose proof (perm_flat_map
+                             (fun d => match d with DBad e => [e] | _ => [] end) _ _ Hp) as H.
+    fold (file_errs ds) in H. fold (file_errs ds') in H. split; intros E; rewrite E in H.
+    - now apply Permutation_nil in H.
+    - apply Permutation_sym in H. now apply Permutation_nil in H.
+  Qed.
+
+  Lemma sub_same a b : sub fs a b -> sub fs' a b.
+  Proof.
+    intros [ds (Hl & He & Hb)]. specialize (Hfs a). rewrite Hl in Hfs.
+    destruct (lookup a fs') as [ds'|] eqn:Hl'; [|contradiction].
+    exists ds'. split; [exact Hl'|]. split; [now apply (perm_file_errs ds ds')|].
+    unfold sub_dirs in *. eapply Permutation_in; [|exact Hb]. now apply perm_flat_map.
+  Qed.
+
+  Lemma good_file_same q : good_file fs q -> good_file fs' q.
+  Proof.
+    unfold good_file. specialize (Hfs q).
+    destruct (lookup q fs) as [ds|], (lookup q fs') as [ds'|]; try contradiction; auto.
+    now apply perm_file_errs.
+  Qed.
+
+  Lemma fnodes_perm q : Permutation (fnodes fs q) (fnodes fs' q).
+  Proof.
+    unfold fnodes. specialize (Hfs q).
+    destruct (lookup q fs) as [ds|], (lookup q fs') as [ds'|]; try contradiction; auto.
+    unfold file_nodes. now apply perm_flat_map.
+  Qed.
+End Order.
+
+Section Order2.
+  Variables fs fs' : bfiles.
+  Variables roots roots' : list name.
+  Hypothesis Hfs : same_decls fs fs'.
+  Hypothesis Hroots : forall r, In r roots <-> In r roots'.
+
+  Lemma reached_same q : reached fs roots q <-> reached fs' roots' q.
+  Proof.
+    assert (H : forall a b, sub fs a b <-> sub fs' a b).
+    { intros a b. split; [now apply sub_same|apply sub_same; now apply same_decls_sym]. }
+    unfold reached. split; intros [s [Hs Hr]]; exists s;
+      (split; [now apply Hroots|now apply (clos_rt_iff _ _ H)]).
+  Qed.
+
+  Lemma good_file_iff q : good_file fs q <-> good_file fs' q.
+  Proof. split; [now apply good_file_same|apply good_file_same; now apply same_decls_sym]. Qed.
+
+  Lemma fnodes_in q n : In n (fnodes fs q) <-> In n (fnodes fs' q).
+  Proof.
+    split; apply Permutation_in; [|apply Permutation_sym]; now apply fnodes_perm.
+  Qed.
+
+  Lemma fnames_perm q : Permutation (fnames fs q) (fnames fs' q).
+  Proof. unfold fnames. apply Permutation_map. now apply fnodes_perm. Qed.
+
+  Lemma read_problem_same : read_problem fs roots -> read_problem fs' roots'.
+  Proof.
+    intros [[q [Hq Hb]]|[[q [Hq Hb]]|[[q [Hq Hb]]|(q1 & q2 & x & H1 & H2 & H3 & H4 & H5)]]].
+    - left. exists q. split; [now apply reached_same|]. now rewrite <- good_file_iff.
+    - right. left. exists q. split; [now apply reached_same|].
+      eapply Permutation_in; [apply fnames_perm|assumption].
+    - right. right. left. exists q. split; [now apply reached_same|].
+      intros Hnd. apply Hb. eapply Permutation_NoDup; [apply Permutation_sym; apply fnames_perm|assumption].
+    - right. right. right. exists q1, q2, x. repeat split; auto; try now apply reached_same.
+      + eapply Permutation_in; [apply fnames_perm|assumption].
+      + eapply Permutation_in; [apply fnames_perm|assumption].
+  Qed.
+
+  Lemma declared_same n : declared fs roots n <-> declared fs' roots' n.
+  Proof.
+    unfold declared. split; intros [q [Hq Hn]]; exists q;
+      (split; [now apply reached_same|now apply fnodes_in]).
+  Qed.
+
+  Lemma dedge_same a b : dedge fs roots a b <-> dedge fs' roots' a b.
+  Proof.
+    unfold dedge. split; intros [n (Hd & Hn & Hb)]; exists n; (split; [now apply declared_same|auto]).
+  Qed.
+
+  Lemma graph_problem_same kind ts :
+    graph_problem fs roots kind ts -> graph_problem fs' roots' kind ts.
+  Proof.
+    intros (t & a & Ht & Hta & Ha). exists t, a. split; [assumption|].
+    split; [now apply (clos_rt_iff _ _ dedge_same)|].
+    destruct Ha as [[Hu Hk]|Hc]; [left; split; [|assumption]|right].
+    - intros n Hd. apply Hu. now apply declared_same.
+    - now apply (clos_t_iff _ _ dedge_same).
+  Qed.
+
+  Lemma reachable_rule_same ts r :
+    reachable_rule fs roots ts r -> reachable_rule fs' roots' ts r.
+  Proof.
+    intros (t & n & Ht & Htr & Hd & Hn & Hty). exists t, n. repeat split; auto.
+    - now apply (clos_rt_iff _ _ dedge_same).
+    - now apply declared_same.
+  Qed.
+End Order2.
+
+Theorem order_irrelevant fs fs' roots roots' kind ts :
+  same_decls fs fs' -> (forall r, In r roots <-> In r roots') ->
+  match c11_run fs roots kind ts, c11_run fs' roots' kind ts with
+  | CErr _, CErr _ => True
+  | CExec ex, CExec ex' => Permutation ex ex'
+  | _, _ => False
+  end.
+Proof.
+  intros Hfs Hroots.
+  assert (Hfs' := same_decls_sym _ _ Hfs).
+  assert (Hroots' : forall r, In r roots' <-> In r roots) by (intros r; symmetry; apply Hroots).
+  pose proof (c11_correct fs roots kind ts) as H1.
+  pose proof (c11_correct fs' roots' kind ts) as H2.
+  destruct (c11_run fs roots kind ts) as [|es| |ex], (c11_run fs' roots' kind ts) as [|es'| |ex'];
+    try contradiction; auto.
+  - destruct H1 as [_ [Hp|Hp]], H2 as (Hn1 & Hn2 & _).
+    + apply Hn1. eapply read_problem_same; eauto.
+    + apply Hn2. eapply graph_problem_same; eauto.
+  - destruct H2 as [_ [Hp|Hp]], H1 as (Hn1 & Hn2 & _).
+    + apply Hn1. eapply read_problem_same; eauto.
+    + apply Hn2. eapply graph_problem_same; eauto.
+  - destruct H1 as (_ & _ & Hnd & Hin & _), H2 as (_ & _ & Hnd' & Hin' & _).
+    apply NoDup_Permutation; auto. intros r. rewrite Hin, Hin'. split.
+    + eapply reachable_rule_same; eauto.
+    + eapply reachable_rule_same; eauto.
+Qed.
+
+(** * Statements as used by Props/C11.v *)
+
+Corollary c11_total fs roots kind ts :
+  c11_run fs roots kind ts <> COutOfFuel /\ c11_run fs roots kind ts <> CMissing.
+Proof.
+  pose proof (c11_correct fs roots kind ts) as H.
+  destruct (c11_run fs roots kind ts); try contradiction; split; discriminate.
+Qed.
+
+Corollary c11_error_iff fs roots kind ts :
+  (exists es, c11_run fs roots kind ts = CErr es /\ es <> []) <->
+  read_problem fs roots \/ graph_problem fs roots kind ts.
+Proof.
+  pose proof (c11_correct fs roots kind ts) as H.
+  destruct (c11_run fs roots kind ts) as [|es| |ex]; try contradiction.
+  - destruct H as [H1 H2]. split; [intros _; assumption|]. intros _. exists es. auto.
+  - destruct H as (H1 & H2 & _). split.
+    + intros [es [E _]]. discriminate.
+    + intros [Hp|Hp]; contradiction.
+Qed.
+
+Corollary c11_exec_sound fs roots kind ts ex :
+  c11_run fs roots kind ts = CExec ex ->
+  NoDup ex /\
+  (forall r, In r ex <-> reachable_rule fs roots ts r) /\
+  (forall e1 a e2, ex = (e1 ++ a :: e2)%list ->
+     forall b n, clos_trans name (dedge fs roots) a b -> declared fs roots n -> nname n = b ->
+                 ntype n = TRule -> In b e1).
+Proof.
+  intros E. pose proof (c11_correct fs roots kind ts) as H. rewrite E in H.
+  destruct H as (_ & _ & H1 & H2 & H3). auto.
+Qed.
+
+Corollary c11_exec_means_sound_files fs roots kind ts ex :
+  c11_run fs roots kind ts = CExec ex ->
+  ~ read_problem fs roots /\ ~ graph_problem fs roots kind ts.
+Proof.
+  intros E. pose proof (c11_correct fs roots kind ts) as H. rewrite E in H. tauto.
+Qed.
